@@ -1,5 +1,5 @@
 SPECIFICATION Spec
-CONSTANT Ns = {1, 2, 3}
+CONSTANT Ns = {1, 2, 3, 4, 5}
 CONSTANT AllGates = {"I", "X", "Y", "Z", "H", "S", "T", "CNOT", "CCNOT", "CZ", "SWAP", "CSWAP", "ISWAP", "RX", "RY", "RZ", "PHASE", "CPHASE", "CPHASE00", "CPHASE01", "CPHASE10", "PSWAP"}
 CONSTANT DeepGates = {}
 CONSTANT ShallowDepth = 0
